@@ -5,3 +5,8 @@ Lemma tie_globals : GenTables.globals_written_after_init = Pinned.globals_writte
 Proof. reflexivity. Qed.
 Lemma no_global_written : forallb (fun p => negb (snd p)) Pinned.globals_written_after_init = true.
 Proof. reflexivity. Qed.
+(* Tie obligation: the execution side never assigns through a Prog. *)
+Lemma tie_prog_readonly : GenTables.prog_writes_in_execution = Pinned.prog_writes_in_execution.
+Proof. reflexivity. Qed.
+Lemma prog_readonly_in_execution : Pinned.prog_writes_in_execution = nil.
+Proof. reflexivity. Qed.
